@@ -228,6 +228,35 @@ class ConstEval:
                         if r and r[1] == 'const':
                             return self.ev(r[2], r[0], {}, depth + 1)
             return UNKNOWN
+        if isinstance(node, (ast.ListComp, ast.SetComp, ast.GeneratorExp)) \
+                and len(node.generators) == 1 and isinstance(
+                    node.generators[0].target, ast.Name):
+            g = node.generators[0]
+            it = self.ev(g.iter, rel, env, depth + 1)
+            if it is UNKNOWN or not isinstance(it, (list, tuple, set,
+                                                    frozenset)):
+                return UNKNOWN
+            out = []
+            for x in it:
+                e2 = dict(env)
+                e2[g.target.id] = x
+                keep = True
+                for c in g.ifs:
+                    t = self.ev(c, rel, e2, depth + 1)
+                    if t is UNKNOWN:
+                        return UNKNOWN
+                    keep = keep and bool(t)
+                if keep:
+                    v = self.ev(node.elt, rel, e2, depth + 1)
+                    if v is UNKNOWN:
+                        return UNKNOWN
+                    out.append(v)
+            if isinstance(node, ast.SetComp):
+                try:
+                    return set(out)
+                except TypeError:
+                    return UNKNOWN
+            return out
         if isinstance(node, ast.Call):
             return self._call(node, rel, env, depth)
         if isinstance(node, ast.IfExp):
@@ -273,6 +302,16 @@ class ConstEval:
                 else:
                     return UNKNOWN
             return isinstance(v, tuple(types))
+        if name in ('any', 'all', 'len', 'bool', 'sorted') and \
+                len(node.args) == 1 and not node.keywords:
+            v = self.ev(node.args[0], rel, env, depth + 1)
+            if v is UNKNOWN:
+                return UNKNOWN
+            try:
+                return {'any': any, 'all': all, 'len': len, 'bool': bool,
+                        'sorted': sorted}[name](v)
+            except Exception:
+                return UNKNOWN
         if name in ('frozenset', 'set', 'tuple', 'list', 'str') and \
                 len(node.args) == 1:
             v = self.ev(node.args[0], rel, env, depth + 1)
